@@ -313,15 +313,18 @@ def install():
     core.attach(praatio_scripts, "alignBoundariesAcrossTiers", "align", _al_pre, _al_post, method=False)
 
 
-def jitter_tier(rng, refs, D, kind, dyadic):
-    """A tier whose timestamps sit at chosen distances from reference timestamps."""
+def jitter_tier(rng, refs, D, kind, dyadic, tiny=False):
+    """A tier whose timestamps sit at chosen distances from reference timestamps; tiny: every timestamp misses its reference
+    timestamp by rounding-noise-sized amounts only (1 ulp .. 1e-10 relative) or is far out of range."""
     n = rng.randrange(1, 5)
     vals = set()
     for _ in range(2 * n if kind == "I" else n):
         r = rng.choice(refs)
         c = rng.random()
         sign = rng.choice((-1, 1))
-        if c < 0.3:
+        if tiny:
+            v = r + sign * max(abs(r), 0.01) * rng.choice((2.3e-16, 1e-14, 1e-12, 1e-10)) if c < 0.8 else r + sign * D * 9
+        elif c < 0.3:
             v = r + sign * D * rng.choice((0.25, 0.5, 0.75))
         elif c < 0.45:
             v = r + sign * D  # exactly at D (exact on the dyadic grid, within the band otherwise)
@@ -401,7 +404,10 @@ def _workload(tier, rng, shard, nshards):
             tg.addTier(t, reportingMode="silence")
             tg.addTier(ref, 0 if rng.random() < 0.5 else None, reportingMode="silence")
             k2 = rng.choice("IP")
-            tg.addTier(make_tier(k2, "u", jitter_tier(rng, refs, D, k2, dyadic), 0.0, 6.0 + 20 * D), rng.choice([None, 0, 1]), reportingMode="silence")
+            tiny = rng.random() < 0.3
+            if tiny:
+                REC.cls("C14:align:rounding-noise-sized-jitter")
+            tg.addTier(make_tier(k2, "u", jitter_tier(rng, refs, D, k2, dyadic, tiny), 0.0, 6.0 + 20 * D), rng.choice([None, 0, 1]), reportingMode="silence")
             call(praatio_scripts.alignBoundariesAcrossTiers, tg, "ref", D)
     m = (5000 if tier == "quick" else 100000) // nshards
     for k in range(m):
